@@ -67,9 +67,9 @@ theorem lt_of_getElem? {thr : List Thread} {t : Nat} {th : Thread} (h : thr[t]? 
   (List.getElem?_eq_some_iff.mp h).1
 
 /-- unfold `step`, split all its branches, normalise the result state -/
-syntax "step_cases " ident : tactic
+syntax "sem_step_cases " ident : tactic
 macro_rules
-  | `(tactic| step_cases $h) => `(tactic|
+  | `(tactic| sem_step_cases $h) => `(tactic|
       (unfold step at $h:ident
        repeat' split at $h:ident
        all_goals (first | (simp [out, afterAcquireWait] at $h:ident) | skip)
@@ -101,11 +101,11 @@ structure Inv (s : State) : Prop where
 theorem cons_step {s : State} {t c : Nat} {o} (h : step s t c = some o)
     (hi : s.value + s.acquired = s.init + s.signalled) :
     o.st.value + o.st.acquired = o.st.init + o.st.signalled := by
-  step_cases h
+  sem_step_cases h
   all_goals (simp; try omega)
 
 theorem mutex_step {s : State} {t c : Nat} {o} (h : step s t c = some o) (hi : MutexInv s) : MutexInv o.st := by
-  step_cases h
+  sem_step_cases h
   all_goals (
     have hlt := lt_of_getElem? ‹s.thr[t]? = some _›
     have hpc := pcT_of_getElem? ‹s.thr[t]? = some _›
@@ -117,7 +117,7 @@ theorem mutex_step {s : State} {t c : Nat} {o} (h : step s t c = some o) (hi : M
 
 theorem waitpc_step {s : State} {t c : Nat} {o} (h : step s t c = some o) (hm : MutexInv s) (hi : WaitPcInv s) :
     WaitPcInv o.st := by
-  step_cases h
+  sem_step_cases h
   all_goals (
     have hlt := lt_of_getElem? ‹s.thr[t]? = some _›
     have hpc := pcT_of_getElem? ‹s.thr[t]? = some _›
@@ -132,7 +132,7 @@ theorem waitpc_step {s : State} {t c : Nat} {o} (h : step s t c = some o) (hm : 
 
 theorem ws_step {s : State} {t c : Nat} {o} (h : step s t c = some o) (hm : MutexInv s) (hw : WaitPcInv s)
     (hi : WsInv s) : WsInv o.st := by
-  step_cases h
+  sem_step_cases h
   all_goals (
     have hlt := lt_of_getElem? ‹s.thr[t]? = some _›
     have hpc := pcT_of_getElem? ‹s.thr[t]? = some _›
@@ -188,7 +188,7 @@ end TlxVerif.C11.Sem
 namespace TlxVerif.C11.Sem
 
 theorem init_step {s : State} {t c : Nat} {o} (h : step s t c = some o) : o.st.init = s.init := by
-  step_cases h
+  sem_step_cases h
   all_goals simp
 
 theorem reachable_init_eq {v : Nat} {ths : List (List Op)} {s : State} (h : Reachable v ths s) : s.init = v := by
